@@ -158,8 +158,9 @@ def h_substitution(g, seq, nmodes, optimize):
 
 # ------------------------------------------------------------------------------------------ (3) measured parameters
 
-def h_measured_latest(g):
-    """measure, use, re-prepare, re-measure, use: each use sees the latest outcome of its mode"""
+def h_measured_latest(g, second="D", optimize=False):
+    """measure, use, re-prepare, re-measure, use: each use sees the latest outcome of its mode (also after optimize, which
+    must not merge the two uses across the second measurement)"""
     import strawberryfields as sf
     from strawberryfields import ops
     n = 2
@@ -179,7 +180,12 @@ def h_measured_latest(g):
         ops.Rgate(q[1].par) | q[0]
         ops.Squeezed(g.real("r")) | q[1]
         ops.MeasureX | q[1]
-        ops.Dgate(q[1].par * 0.5) | q[0]
+        if second == "D":
+            ops.Dgate(q[1].par * 0.5) | q[0]
+        else:
+            ops.Rgate(q[1].par * 0.5) | q[0]
+    if optimize:
+        prog = prog.compile(compiler="gaussian", optimize=True)
     eng = c09.make_engine(g, base)
     eng.run(prog, modes=[])
     # reference: the same circuit with the outcomes written in as numbers
@@ -190,7 +196,10 @@ def h_measured_latest(g):
         ops.Rgate(outs[0][0]) | q[0]
         ops.Squeezed(vars(g)["env"]["r"] if not g.sym else _get(g, "r")) | q[1]
         ops.MeasureX | q[1]
-        ops.Dgate(outs[1][0] * 0.5) | q[0]
+        if second == "D":
+            ops.Dgate(outs[1][0] * 0.5) | q[0]
+        else:
+            ops.Rgate(outs[1][0] * 0.5) | q[0]
     eng2 = c09.make_engine(g, base)
     eng2.run(ref, modes=[])
     c1, c2 = eng.backend.circuit, eng2.backend.circuit
@@ -277,8 +286,12 @@ def build(ctx):
             ctx.add("substitution.%s.%s" % ("|".join(s), "optimize" if opt else "plain"), h_substitution,
                     {"seq": s, "nmodes": nm, "optimize": opt}, modules=mods, functions=fns,
                     bounds={"modes": nm, "length": len(s), "optimize": opt}, validate_points=1)
-    ctx.add("measured.latest_outcome", h_measured_latest, {}, modules=mods, functions=fns + ["Measurement.apply", "RegRef.val"],
-            bounds={"modes": 2, "script": "measure, use, re-prepare, re-measure, use"})
+    for second in ("D", "R"):
+        for opt in (False, True):
+            ctx.add("measured.latest_outcome.%s.%s" % (second, "optimize" if opt else "plain"), h_measured_latest,
+                    {"second": second, "optimize": opt}, modules=mods, functions=fns + ["Measurement.apply", "RegRef.val"],
+                    bounds={"modes": 2, "script": "measure, use (Rgate), re-prepare, re-measure, use (%sgate)" % second,
+                            "optimize": opt})
     for case in ("use_before_measurement", "unbound_free", "unknown_name", "unbound_free_after_other_program_bound_same_name",
                  "measured_parameter_of_another_program"):
         ctx.add("errors.%s" % case, h_errors, {"case": case}, modules=mods, functions=fns, bounds={}, validate_points=0)
